@@ -794,9 +794,45 @@ func gen() {
 		}
 		rows = append(rows, fmt.Sprintf("  (%d, %s, (%s, %s))", abs, b2s(off < 0), b2s(m.IsExpired()), b2s(m.IsValid())))
 	}
+	// far past, beyond what a Duration offset from now can express: the zero time.Time (what a JSON round trip of
+	// "0001-01-01T00:00:00Z" yields), the Unix epoch, and 100 years ago — a non-nil ExpiresAt in the past is expired, however old
+	for _, fp := range []struct {
+		ms int64
+		t  time.Time
+	}{{63900000000000, time.Time{}}, {1700000000000, time.Unix(0, 0)}, {3155760000000, time.Now().AddDate(-100, 0, 0)}} {
+		m := &models.PortMapping{ID: "g", ListenClientID: 11, TargetClientID: 12, Status: models.MappingStatusActive}
+		t := fp.t
+		m.ExpiresAt = &t
+		rows = append(rows, fmt.Sprintf("  (%d, true, (%s, %s))", fp.ms, b2s(m.IsExpired()), b2s(m.IsValid())))
+	}
 	{
 		m := &models.PortMapping{ID: "g", ListenClientID: 11, TargetClientID: 12, Status: models.MappingStatusActive}
 		rows = append(rows, fmt.Sprintf("  (0, false, (%s, %s))", b2s(m.IsExpired()), b2s(m.IsValid())))
+	}
+	sb.WriteString(strings.Join(rows, ";\n") + "\n].\n\n")
+
+	// the real PortMapping.Revoke — how a mapping BECOMES revoked — on every status x expiry x caller, followed by a re-activation
+	// of the status (pause / revoke / resume histories): a revocation reported as done must leave the mapping revoked, invalid and
+	// inaccessible for good
+	sb.WriteString("(* rows: ((status: 0 active 1 inactive 2 error, expired, caller: 1 listen 2 target 3 other) ->\n")
+	sb.WriteString("          (Revoke reported success, IsRevoked after, IsValid after, after Status:=active: IsValid, CanBeAccessedBy listen, CanBeAccessedBy target)) *)\n")
+	sb.WriteString("Definition revoke_table : list ((N * bool * N) * (bool * bool * bool * (bool * bool * bool))) := [\n")
+	rows = nil
+	for si, stt := range []models.MappingStatus{models.MappingStatusActive, models.MappingStatusInactive, models.MappingStatusError} {
+		for _, exp := range []bool{false, true} {
+			for ci, caller := range []int64{11, 12, 13} {
+				m := &models.PortMapping{ID: "g", ListenClientID: 11, TargetClientID: 12, SecretKey: "k", Status: stt}
+				if exp {
+					t := time.Now().Add(-time.Hour)
+					m.ExpiresAt = &t
+				}
+				err := m.Revoke("verif", caller)
+				r1, v1 := m.IsRevoked, m.IsValid()
+				m.Status = models.MappingStatusActive
+				rows = append(rows, fmt.Sprintf("  ((%d, %s, %d), (%s, %s, %s, (%s, %s, %s)))", si, b2s(exp), ci+1,
+					b2s(err == nil), b2s(r1), b2s(v1), b2s(m.IsValid()), b2s(m.CanBeAccessedBy(11)), b2s(m.CanBeAccessedBy(12))))
+			}
+		}
 	}
 	sb.WriteString(strings.Join(rows, ";\n") + "\n].\n\n")
 
